@@ -429,6 +429,21 @@ def run_manysum(case, ctx):
             f'summand {big:.3e})')
         ctx.check('many-sum', max(ref.ranks_of(Zc)) <= cap, 'add_many: rank '
             f'cap {cap} exceeded: {ref.ranks_of(Zc)}')
+    # a list with ONE tensor: the outer product of one factor is that tensor,
+    # as a new object (editing the result must not reach the operand)
+    Yo = gen.cores(rng, n, gen.rand_ranks(rng, d, 2), 'normal')
+    snap_o = [G.copy() for G in Yo]
+    Zo = teneva.outer_many([Yo])
+    if ctx.check('many-sum', ref.wellformed(Zo, n) is None, 'outer_many of a '
+            'one-element list: malformed result'):
+        ctx.close('many-sum', ref.dense_ld(Zo), ref.dense_ld(snap_o), C *
+            ref.nterms(Yo) * EPS * ref.absbound(snap_o), 'outer_many([Y]) '
+            'differs from Y')
+        for G in Zo:
+            G *= 2.
+        ctx.check('many-sum', all(np.array_equal(G, H) for G, H in
+            zip(Yo, snap_o)), 'outer_many([Y]): editing the result in place '
+            'changed the operand')
     ctx.nontrivial(['manysum', n, m, tf])
 
 
@@ -505,6 +520,39 @@ def run_stabprod(case, ctx):
             tol / np.sqrt(np.sum(A1 * A1)), 'norm(use_stab=True): v 2^p '
             'differs from the dense norm')
     ctx.nontrivial(['stabprod', d, q, ex[0]])
+    # long chains whose bonds carry a diagonal gauge diag(s, 1/s): every entry
+    # is ordinary, the partial contractions grow like s^(2k) for a while -
+    # the per-core maxima say nothing about the running product.  Positive
+    # cores: no cancellation, the value is known to d eps relative.
+    dg = int(rng.integers(30, 90))
+    sg = float(rng.choice([2.0 ** 12, 1e3, 2.0 ** 8]))
+    ng = 2
+    def gauged():
+        Yg = []
+        for k in range(dg):
+            G = rng.uniform(0.5, 1.5, size=(1 if k == 0 else 2, ng,
+                1 if k == dg - 1 else 2))
+            if k > 0:
+                G = G * np.array([1. / sg, sg])[:, None, None]
+            if k < dg - 1:
+                G = G * np.array([sg, 1. / sg])[None, None, :]
+            Yg.append(G)
+        return Yg
+    Z1, Z2 = gauged(), gauged()
+    mref, eref = ref.scaled_scalar_product(Z1, Z2)
+    try:
+        v, p = teneva.mul_scalar(Z1, Z2, use_stab=True)
+    except Exception as ex_:
+        ctx.viol('stab-scalar-product', f'mul_scalar(use_stab=True) on gauged '
+            f'chains raised {type(ex_).__name__}: {ex_}', d=dg)
+    else:
+        got = (np.log2(abs(LD(v))) + LD(int(p))) if v != 0 else -np.inf
+        want_l = np.log2(abs(mref)) + LD(int(eref))
+        ctx.check('stab-scalar-product', bool(np.isfinite(got)) and
+            abs(got - want_l) <= 1e-9 and np.sign(v) == np.sign(mref),
+            lambda: f'mul_scalar(use_stab=True) on chains of {dg} cores with '
+            f'bond gauge diag({sg:g}, 1/{sg:g}): (v, p) = ({v!r}, {p}), i.e. '
+            f'log2 = {float(got):.6f}; the value is 2^{float(want_l):.6f}')
 
 
 def run_case(case, ctx):
